@@ -554,6 +554,22 @@ def times_check(prop, tier):
                           {"behaviour": hists[sid - 1], "trace_rejected_at": reached,
                            "first_unmatched_event": evs[reached] if reached < len(evs) else None})
     run.sample({"behaviour": hists[len(hists) // 2]})
+    # (b') the same accounting when one fake! line serves consecutive lifetimes (the static counter is shared by
+    # every installation built by that line): behaviours of the 2-lifetime model with the site reused
+    h7, g7 = gen_behaviours("MC_LifecycleApi_c7q" if tier == "quick" else "MC_LifecycleApi_c7t", timeout=3000)
+    run.states += g7["distinct"]
+    run.transitions += g7["generated"]
+    h7 = h7[::2] if tier == "quick" else h7
+    scen7 = [hist_to_scenario(h, i, "rust", 1, diff=False, reuse_sites=True) for i, h in enumerate(h7, 1)]
+    g7ev, _, _ = vlib.run_harness("lifecycle", scen7, "lifecycle_C06r")
+    for i, h in enumerate(h7, 1):
+        key = "reuse " + history_key(h)
+        run.note_case(key)
+        bad = [b for b in compare_replay(h, g7ev.get(i, []), 1) if b[0] in ("C06", "CRASH")]
+        if bad:
+            run.violation("C06 site-reuse history=%s" % history_key(h), {"behaviour": h, "scenario": scen7[i - 1], "mismatch": bad})
+        else:
+            run.traces += 1
     # (c) concurrent rounds
     rnd = vlib.rnd("times")
     rounds = []
@@ -861,6 +877,11 @@ def arm_check(prop, tier):
                 "and of the fake address swept + edge values + boolean path; patch_arm.rs compiled on the host against a simulated memory; "
                 "TLC executes the 12 bytes on A32T32.tla (PC+8 / Align(PC+4,4) literal addressing, BX interworking)")
     run.assumptions = ["A32T32.tla transcribes LDR(literal) A1/T1/T2, BX, NOP from the Arm ARM", "r9 counted as callee-saved (AAPCS on Linux)"]
+    # design level: the three entry layouts as data, assembled and executed for every alignment / fake state
+    r = tlc.check("MC_ArmSeq", "MC_ArmSeq", workers=2, timeout=600, coverage=False)
+    run.add_model(r)
+    if r["violation"]:
+        run.design_violation(r)
     vlib.build_harness()
     cases = arm_cases(tier)
     for c in cases:
@@ -1275,6 +1296,9 @@ DEVIATIONS = [
     ("MC_Async", "MC_Async_q", {"RestoreOnDrop": "FALSE"}, ("FakedOnlyWhileAlive", "LastFakeWins")),
     ("MC_Async", "MC_Async_q", {"IsolateSiblings": "FALSE"}, ("LastFakeWins",)),
     ("MC_Arms", "MC_Arms", {"AssignBeforeCount": "TRUE"}, ("SideEffects",)),
+    ("MC_ArmSeq", "MC_ArmSeq", {"Scratch": "7"}, ("OnlyScratch",)),
+    ("MC_ArmSeq", "MC_ArmSeq", {"Scratch": "9"}, ("OnlyScratch",)),
+    ("MC_ArmSeq", "MC_ArmSeq", {"ImmT": "2"}, ("Reaches", "OneLoad")),
 ]
 
 
